@@ -4,6 +4,10 @@
 (* VERIF_TRACES: JSON array).  One item = one pair of race results that was *)
 (* stored with FileRaceStore, read back and compared:                       *)
 (*   [id, proc, B: [E, nm, v], C: [E, nm, v], pairing,                      *)
+(*    names ("ascii" | "unicode": alphabet of the task / job / transform /  *)
+(*    index / field names), env ("inproc" | "non-utf8-locale": the run was   *)
+(*    made by a child interpreter under LC_ALL=C) - optional, inputs only:   *)
+(*    no clause depends on them,                                            *)
 (*    fwd, swp: rows of _metrics_table(plain=False) for (B, C) and (C, B),  *)
 (*    plain: rows of _metrics_table(plain=True) for (B, C),                 *)
 (*    selfb, selfc: rows for (B, B) and (C, C),                             *)
